@@ -213,6 +213,11 @@ ConfigsC15x ==
                    !.abort = ab] :
         d \in {3, Inf}, ha \in BOOLEAN, ab \in BOOLEAN }
 
+\* long runs: a hook that keeps raising, event after event
+ConfigsC15y ==
+    { [Base EXCEPT !.maxAtt = 6, !.rc = TRUE, !.bsleep = TRUE, !.handler = ha] : ha \in BOOLEAN }
+OutsC15y == {OkOut, Out("exc", T, None), Out("res", R, None)}
+
 \* ---- C10: policies sharing a rolling-window budget ----------------------------
 OutsC10 == {OkOut, Out("exc", T, None), Out("res", T, None)}
 ConfigsC10 ==
